@@ -92,6 +92,9 @@ def impl_main(payload):
         rs = np.random.RandomState(s)
         m = int(rs.randint(3, 12))
         x = rs.uniform(-2, 2, size=(m, 2))
+        if r % 4 == 3:
+            # sample positions given as an INTEGER array (np.arange-style inputs) with real-valued targets
+            x = rs.choice([-3, -2, -1, 1, 2, 3], size=(m, 2)).astype(np.int64)
         y = rs.uniform(1.0, 3.0, size=(m, 1)) * rs.choice([-1, 1], size=(m, 1))
         y2 = rs.uniform(1.0, 3.0, size=(m, 1)) * rs.choice([-1, 1], size=(m, 1))
         eq = eqs[r % len(eqs)]
